@@ -107,6 +107,9 @@ def run(env, tier, seed, broken=None):
             '%s g(%s) { %s (%s i = 0; i < 2; i = i + 1) { %s %s + i; } %s (%s) { %s %s; } }\ng(7);\n' % (FUN, B, FOR, VAR, PRINT, B, IF, TRUE, PRINT, B),
             '%s h(%s) { %s = "local"; { %s = %s + "!"; } %s %s; }\nh(0);\n%s %s;\n' % (FUN, B, B, B, B, PRINT, B, PRINT, B),
         ]
+    # a name with no visible binding is an error wherever it is read - also as a bare expression statement
+    extra += ['zz;\n%s "after";\n' % PRINT, '%s f() { zz; %s "in"; }\nf();\n' % (FUN, PRINT), '{ %s y = 1; }\ny;\n%s "after";\n' % (VAR, PRINT),
+              '%s (%s i = 0; i < 1; i = i + 1) { }\ni;\n' % (FOR, VAR), '%s g(p) { }\ng(1);\np;\n' % FUN, '(zz);\n', 'zz.k;\n', '%s (%s) { zz; }\n%s "after";\n' % (IF, TRUE, PRINT)]
     # a name bound twice in one scope (a function declared over a variable or over an earlier function, a parameter spelt
     # like its function, duplicate parameters): later assignments and reads see one and the same binding
     extra += [
